@@ -16,16 +16,62 @@
 #include "common/spaces.h"
 #include <ompl/base/spaces/DubinsStateSpace.h>
 #include <ompl/base/spaces/ReedsSheppStateSpace.h>
+#include <ompl/base/spaces/OwenStateSpace.h>
+#include <ompl/base/spaces/VanaStateSpace.h>
+#include <ompl/base/spaces/VanaOwenStateSpace.h>
+#include <ompl/base/spaces/EmptyStateSpace.h>
+#include <ompl/base/spaces/SpaceTimeStateSpace.h>
+#include <ompl/base/Constraint.h>
+#include <ompl/base/spaces/constraint/ProjectedStateSpace.h>
+#include <ompl/base/spaces/constraint/AtlasStateSpace.h>
+#include <ompl/base/spaces/constraint/TangentBundleStateSpace.h>
+#include <ompl/geometric/planners/cforest/CForestStateSpaceWrapper.h>
 #include <ompl/util/Console.h>
 #include <ompl/util/Exception.h>
 
 namespace ob = ompl::base;
 
-static ob::StateSpacePtr parseSpaceExt(const std::vector<std::string> &t, size_t &i)
+// extended grammar (all top level; `X <space>` forms take any space of this grammar):
+//   empty                                          EmptyStateSpace                     (model: R^0 with extent 0)
+//   spacetime <vmax> <timeWeight> (u | b <lo> <hi>) <space>   SpaceTimeStateSpace      (model)
+//   projected|atlas|tangentbundle <rv space>       constrained spaces over the unit-sphere constraint (model: ambient)
+//   cforest <space>                                CForestStateSpaceWrapper            (model: inner)
+//   dubins <rho> <sym> <lo>*2 <hi>*2 | reedsshepp <rho> <lo>*2 <hi>*2                  (implementation only)
+//   owen|vana|vanaowen <rho> <maxPitch> <lo>*3 <hi>*3                                  (implementation only)
+// `layout` is the space whose state layout the protocol follows (the inner space for cforest, whose
+// states ARE the inner space's states).
+struct SpaceH
 {
-    if (i < t.size() && (t[i] == "dubins" || t[i] == "reedsshepp"))
+    ob::StateSpacePtr sp;
+    ob::StateSpacePtr layout;
+    std::vector<ob::StateSpacePtr> keep;   // inner spaces referenced by raw pointer
+};
+
+// ||x||^2 = 1 in R^n (co-dimension 1)
+class UnitSphereConstraint : public ob::Constraint
+{
+public:
+    explicit UnitSphereConstraint(unsigned n) : ob::Constraint(n, 1)
     {
-        bool dub = t[i] == "dubins";
+    }
+    void function(const Eigen::Ref<const Eigen::VectorXd> &x, Eigen::Ref<Eigen::VectorXd> out) const override
+    {
+        out[0] = x.squaredNorm() - 1.0;
+    }
+    void jacobian(const Eigen::Ref<const Eigen::VectorXd> &x, Eigen::Ref<Eigen::MatrixXd> out) const override
+    {
+        out = 2.0 * x.transpose();
+    }
+};
+
+static SpaceH parseSpaceExt(const std::vector<std::string> &t, size_t &i)
+{
+    if (i >= t.size())
+        throw vp::ParseError("eol");
+    const std::string k = t[i];
+    if (k == "dubins" || k == "reedsshepp")
+    {
+        bool dub = k == "dubins";
         ++i;
         double rho = vp::needF(t, i);
         bool sym = false;
@@ -40,13 +86,93 @@ static ob::StateSpacePtr parseSpaceExt(const std::vector<std::string> &t, size_t
         {
             auto s = std::make_shared<ob::DubinsStateSpace>(rho, sym);
             s->setBounds(b);
-            return s;
+            return {s, s, {}};
         }
         auto s = std::make_shared<ob::ReedsSheppStateSpace>(rho);
         s->setBounds(b);
-        return s;
+        return {s, s, {}};
     }
-    return vp::parseSpace(t, i);
+    if (k == "owen" || k == "vana" || k == "vanaowen")
+    {
+        ++i;
+        double rho = vp::needF(t, i);
+        double pitch = vp::needF(t, i);
+        ob::RealVectorBounds b(3);
+        for (unsigned j = 0; j < 3; ++j)
+            b.low[j] = vp::needF(t, i);
+        for (unsigned j = 0; j < 3; ++j)
+            b.high[j] = vp::needF(t, i);
+        if (k == "owen")
+        {
+            auto s = std::make_shared<ob::OwenStateSpace>(rho, pitch);
+            s->setBounds(b);
+            return {s, s, {}};
+        }
+        if (k == "vana")
+        {
+            auto s = std::make_shared<ob::VanaStateSpace>(rho, pitch);
+            s->setBounds(b);
+            return {s, s, {}};
+        }
+        auto s = std::make_shared<ob::VanaOwenStateSpace>(rho, pitch);
+        s->setBounds(b);
+        return {s, s, {}};
+    }
+    if (k == "empty")
+    {
+        ++i;
+        auto s = std::make_shared<ob::EmptyStateSpace>();
+        return {s, s, {}};
+    }
+    if (k == "spacetime")
+    {
+        ++i;
+        double vmax = vp::needF(t, i);
+        double tw = vp::needF(t, i);
+        if (i >= t.size())
+            throw vp::ParseError("eol");
+        std::string m = t[i++];
+        double lo = 0, hi = 0;
+        if (m == "b")
+        {
+            lo = vp::needF(t, i);
+            hi = vp::needF(t, i);
+        }
+        else if (m != "u")
+            throw vp::ParseError("spacetime");
+        auto inner = vp::parseSpace(t, i);
+        auto s = std::make_shared<ob::SpaceTimeStateSpace>(inner, vmax, tw);
+        if (m == "b")
+            s->setTimeBounds(lo, hi);
+        return {s, s, {}};
+    }
+    if (k == "projected" || k == "atlas" || k == "tangentbundle")
+    {
+        ++i;
+        auto amb = vp::parseSpace(t, i);
+        if (!dynamic_cast<ob::RealVectorStateSpace *>(amb.get()) || amb->getDimension() < 2)
+            throw vp::ParseError("constrained spaces need an R^n ambient space, n >= 2");
+        auto con = std::make_shared<UnitSphereConstraint>(amb->getDimension());
+        ob::StateSpacePtr s;
+        if (k == "projected")
+            s = std::make_shared<ob::ProjectedStateSpace>(amb, con);
+        else if (k == "atlas")
+            s = std::make_shared<ob::AtlasStateSpace>(amb, con);
+        else
+            s = std::make_shared<ob::TangentBundleStateSpace>(amb, con);
+        return {s, s, {}};
+    }
+    if (k == "cforest")
+    {
+        ++i;
+        SpaceH in = parseSpaceExt(t, i);
+        auto s = std::make_shared<ob::CForestStateSpaceWrapper>(nullptr, in.sp.get());
+        SpaceH out{s, in.layout, in.keep};
+        out.keep.push_back(in.sp);
+        return out;
+    }
+    auto s = vp::parseSpace(t, i);
+    return {s, s, {}};
 }
 
 struct Scoped
@@ -69,6 +195,7 @@ int main()
     if (!vp::readLine(line))
         return 2;
     auto hdr = vp::tokens(line);
+    SpaceH H;
     ob::StateSpacePtr sp;
     if (hdr.empty() || hdr[0] != "spacedist")
     {
@@ -80,7 +207,8 @@ int main()
         try
         {
             size_t i = 1;
-            sp = parseSpaceExt(hdr, i);
+            H = parseSpaceExt(hdr, i);
+            sp = H.sp;
             if (i != hdr.size())
                 throw vp::ParseError("trailing");
         }
@@ -104,7 +232,8 @@ int main()
                 auto nsp = parseSpaceExt(t, i);
                 if (i != t.size())
                     throw vp::ParseError("trailing");
-                sp = nsp;
+                H = nsp;
+                sp = H.sp;
                 std::cout << "ok\n";
             }
             else if (!sp)
@@ -113,8 +242,8 @@ int main()
             {
                 Scoped a(sp), b(sp);
                 size_t i = 1;
-                vp::parseStateInto(sp.get(), a.s, t, i);
-                vp::parseStateInto(sp.get(), b.s, t, i);
+                vp::parseStateInto(H.layout.get(), a.s, t, i);
+                vp::parseStateInto(H.layout.get(), b.s, t, i);
                 if (i != t.size())
                     throw vp::ParseError("trailing");
                 if (op == "dist")
@@ -126,7 +255,7 @@ int main()
             {
                 Scoped a(sp);
                 size_t i = 1;
-                vp::parseStateInto(sp.get(), a.s, t, i);
+                vp::parseStateInto(H.layout.get(), a.s, t, i);
                 if (i != t.size())
                     throw vp::ParseError("trailing");
                 std::cout << "in " << (sp->satisfiesBounds(a.s) ? 1 : 0) << "\n";
